@@ -170,7 +170,7 @@ class Wrapped(object):
             res = orig(*a, **kw)
             me.calls += 1
             if me.record:
-                me.log.append((a, kw, res))
+                me.log.append((a, kw, list(res) if isinstance(res, list) else res))   # copy: the caller may mutate it
             if me.post is not None:
                 try:
                     f = me.post(a, kw, res)
